@@ -98,6 +98,9 @@ func c03Step(x *engine.Exec) []engine.Failure {
 	}
 	prev := x.Prev.Snap()
 	for _, den := range prev.Denoms {
+		if _, still := s.Assets[den]; !still {
+			continue // deleted by governance in this transition
+		}
 		if prev.Assets[den].TotalTokens.IsPositive() && s.Assets[den].TotalTokens.IsZero() {
 			x.Cnt.Inc("asset.drained_to_zero")
 		}
@@ -155,12 +158,14 @@ func init() {
 					req(mk("c03-small", small, [][]world.Op{nil}, []int{6, 2, 0, 3, 0}, 8)),
 					mk("c03-cycled", small, [][]world.Op{cycled}, []int{5, 2, 0, 3, 0}, 7),
 					mk("c03-magnitude", mag, [][]world.Op{nil}, []int{6, 2, 0, 2, 0}, 8),
+					unionScenario("C03", "c03-union", tier, c03Step, nil),
 				}
 			}
 			return []*engine.Scenario{
 				req(mk("c03-small", small, [][]world.Op{nil}, []int{3, 1, 0, 2, 0}, 5)),
 				mk("c03-cycled", small, [][]world.Op{cycled}, []int{3, 1, 0, 2, 0}, 3),
 				mk("c03-magnitude", mag, [][]world.Op{nil}, []int{4, 1, 0, 1, 0}, 5),
+				unionScenario("C03", "c03-union", tier, c03Step, nil),
 			}
 		},
 		Assumptions: []string{
